@@ -1,9 +1,10 @@
 package main
 
-// HTTP publish cases: /pub, text /mpub, binary /mpub against two live daemons (default
-// limits; tiny limits so that the size checks are reachable with small bodies).  What was
-// published is observed independently of any model: the topic's message_count from /stats
-// and the bodies consumed from the topic's only channel.
+// HTTP publish cases: /pub, text /mpub, binary /mpub against shared live daemons (default
+// limits; tiny limits so that the size checks are reachable with small bodies, with every
+// message through the disk queue and with a memory queue; see httpCfgs).  What was published
+// is observed independently of any model: the topic's message_count from /stats and the
+// bodies consumed from the topic's only channel.  httpedge.go enumerates the boundaries.
 
 import (
 	"bufio"
@@ -23,7 +24,9 @@ import (
 
 type httpDaemon struct {
 	d               *nsqd.NSQD
+	key             string
 	maxMsg, maxBody int64
+	memq            int64
 	tcp, http       string
 	ntopics         int
 }
@@ -44,28 +47,62 @@ func baseOpts() *nsqd.Options {
 	return opts
 }
 
-func getHTTPDaemon(small bool, r *lib.Rand) *httpDaemon {
-	key := "default"
-	if small {
-		key = "small"
+// httpCfg: the limits and the memory queue size of one of the shared HTTP daemons.  A zero
+// maxMsg means nsqd's defaults (1 MiB / 5 MiB / 10000).  With mem-queue-size 0 every message
+// goes through the disk queue, whose own record limit (max-msg-size + 26) turns an oversize
+// publish into a 503; with a memory queue nothing stands behind the HTTP handler's checks.
+type httpCfg struct {
+	key                   string
+	maxMsg, maxBody, memq int64
+}
+
+var httpCfgs = []httpCfg{
+	{"small", 16, 60, 0},
+	{"small-mem", 16, 60, 100},
+	{"mid-mem", 100, 420, 100},
+	{"4k-mem", 4096, 16384, 1000},
+	{"default", 0, 0, 0},
+}
+
+func httpCfgByKey(key string) httpCfg {
+	for _, c := range httpCfgs {
+		if c.key == key {
+			return c
+		}
 	}
-	if hd, ok := httpDaemons[key]; ok {
+	lib.Fatalf("unknown http daemon %q", key)
+	return httpCfg{}
+}
+
+func getHTTPDaemonCfg(c httpCfg) *httpDaemon {
+	if hd, ok := httpDaemons[c.key]; ok {
 		return hd
 	}
 	opts := baseOpts()
-	if small {
-		opts.MaxMsgSize = 16
-		opts.MaxBodySize = 60
-		opts.MemQueueSize = 0
+	if c.maxMsg > 0 {
+		opts.MaxMsgSize = c.maxMsg
+		opts.MaxBodySize = c.maxBody
+		opts.MemQueueSize = c.memq
 	}
 	d, err := nsqdlib.Start(opts)
 	if err != nil {
 		lib.Fatalf("nsqd (http daemon): %v", err)
 	}
-	hd := &httpDaemon{d: d, maxMsg: opts.MaxMsgSize, maxBody: opts.MaxBodySize,
+	hd := &httpDaemon{d: d, key: c.key, maxMsg: opts.MaxMsgSize, maxBody: opts.MaxBodySize, memq: opts.MemQueueSize,
 		tcp: d.RealTCPAddr().String(), http: d.RealHTTPAddr().String()}
-	httpDaemons[key] = hd
+	httpDaemons[c.key] = hd
 	return hd
+}
+
+func getHTTPDaemon(small, mem bool) *httpDaemon {
+	key := "default"
+	if small {
+		key = "small"
+		if mem {
+			key = "small-mem"
+		}
+	}
+	return getHTTPDaemonCfg(httpCfgByKey(key))
 }
 
 func createChannel(httpAddr, topic, channel string) {
@@ -83,11 +120,43 @@ func stopHTTPDaemons() {
 	}
 }
 
+// pieceReader hands the body out at most n bytes per Read: net/http writes one chunk of the
+// chunked encoding per Read of a body of unknown length.
+type pieceReader struct {
+	b []byte
+	n int
+}
+
+func (p *pieceReader) Read(q []byte) (int, error) {
+	if len(p.b) == 0 {
+		return 0, io.EOF
+	}
+	k := p.n
+	if k > len(p.b) {
+		k = len(p.b)
+	}
+	if k > len(q) {
+		k = len(q)
+	}
+	copy(q, p.b[:k])
+	p.b = p.b[k:]
+	return k, nil
+}
+
 func httpPost(url string, body []byte, chunked bool) (int, string, error) {
+	return httpPostPieces(url, body, chunked, 0)
+}
+
+// httpPostPieces: chunked = no Content-Length, Transfer-Encoding: chunked; piece > 0 = the
+// size of the chunks (0 = whatever io.Copy makes of it, one chunk for bodies below 32 KiB).
+func httpPostPieces(url string, body []byte, chunked bool, piece int) (int, string, error) {
 	var rd io.Reader = bytes.NewReader(body)
 	if chunked {
 		// a reader of a type net/http does not know: Content-Length unknown, chunked encoding
 		rd = bufio.NewReader(bytes.NewReader(body))
+		if piece > 0 {
+			rd = &pieceReader{b: body, n: piece}
+		}
 	}
 	req, err := http.NewRequest("POST", url, rd)
 	if err != nil {
@@ -148,7 +217,13 @@ func consumeN(addr string, f feat, topic, channel string, n int) ([][]byte, erro
 	}
 	var raws [][]byte
 	if n > 0 {
-		if err := c.send(fmt.Sprintf("RDY %d", n), nil); err != nil {
+		// RDY is bounded by max-rdy-count (2500): a larger batch is finished message by
+		// message so that the in-flight count stays below the RDY count
+		rdy, early := n, false
+		if rdy > 2000 {
+			rdy, early = 2000, true
+		}
+		if err := c.send(fmt.Sprintf("RDY %d", rdy), nil); err != nil {
 			return nil, err
 		}
 		for len(raws) < n {
@@ -159,6 +234,11 @@ func consumeN(addr string, f feat, topic, channel string, n int) ([][]byte, erro
 			switch {
 			case ft == 2:
 				raws = append(raws, data)
+				if early && len(data) >= 26 {
+					if err := c.send(fmt.Sprintf("FIN %s", data[10:26]), nil); err != nil {
+						return raws, err
+					}
+				}
 			case ft == 0 && string(data) == "_heartbeat_":
 				c.send("NOP", nil)
 			default:
@@ -167,7 +247,7 @@ func consumeN(addr string, f feat, topic, channel string, n int) ([][]byte, erro
 		}
 		var buf bytes.Buffer
 		for _, raw := range raws {
-			if len(raw) >= 26 {
+			if len(raw) >= 26 && !early {
 				fmt.Fprintf(&buf, "FIN %s\n", raw[10:26])
 			}
 		}
@@ -280,15 +360,17 @@ func httpCase(in caseIn, name string) {
 	if in.Explicit {
 		small, kind, chunked = in.Small, in.HKind, in.Chunked
 	}
-	hd := getHTTPDaemon(small, r)
-	hd.ntopics++
-	topic := fmt.Sprintf("h%d_%d", hd.ntopics, in.Seed%100000)
-	createChannel(hd.http, topic, "c")
+	// the limits follow from [small]; which of the two small daemons (every message through
+	// the disk queue / a memory queue) is drawn last
+	lim := httpCfgByKey(map[bool]string{true: "small", false: "default"}[small])
+	hd := &httpDaemon{maxMsg: lim.maxMsg, maxBody: lim.maxBody}
+	if !small {
+		hd = getHTTPDaemon(false, false)
+	}
 	var body []byte
 	var want [][]byte
 	intent := 2
 	cls := ""
-	url := "http://" + hd.http
 	switch kind {
 	case 0:
 		var n int64
@@ -317,10 +399,8 @@ func httpCase(in caseIn, name string) {
 			intent = 0
 		}
 		cls = "pub"
-		url += "/pub?topic=" + topic
 	case 1:
 		body, intent, cls = genTextBody(r, hd.maxMsg, hd.maxBody, small)
-		url += "/mpub?topic=" + topic
 	default:
 		var bodies [][]byte
 		body, bodies, intent, cls = genBatch(r, hd.maxMsg, hd.maxBody)
@@ -331,9 +411,10 @@ func httpCase(in caseIn, name string) {
 			want = bodies
 		}
 		cls = "binary-" + cls
-		url += "/mpub?topic=" + topic + "&binary=true"
 	}
+	mem := r.Chance(50)
 	if in.Explicit {
+		mem = in.MemQ > 0
 		body, _ = base64.StdEncoding.DecodeString(in.BodyB64)
 		intent, want = 2, nil
 		if kind == 1 {
@@ -346,17 +427,35 @@ func httpCase(in caseIn, name string) {
 		}
 		cls = "explicit"
 	}
+	hd = getHTTPDaemon(small, mem)
+	httpRun(hd, kind, body, chunked, 0, intent, want, cls, in, name, nil)
+}
+
+// httpRun: one publish request against a fresh topic of the daemon, observed through /stats
+// and by consuming the topic's only channel; emits the case.
+func httpRun(hd *httpDaemon, kind int, body []byte, chunked bool, piece int, intent int, want [][]byte, cls string, in caseIn, name string, extra []string) {
+	hd.ntopics++
+	topic := fmt.Sprintf("h%d_%d", hd.ntopics, in.Seed%100000)
+	createChannel(hd.http, topic, "c")
+	url := "http://" + hd.http
+	switch kind {
+	case 0:
+		url += "/pub?topic=" + topic
+	case 1:
+		url += "/mpub?topic=" + topic
+	default:
+		url += "/mpub?topic=" + topic + "&binary=true"
+	}
 	cl := int64(len(body))
 	if chunked {
 		cl = -1
 	}
-	status, msg, err := httpPost(url, body, chunked)
+	status, msg, err := httpPostPieces(url, body, chunked, piece)
 	if err != nil {
 		lib.Fatalf("POST %s: %v", url, err)
 	}
 	count := topicMessageCount(hd, topic)
-	raws, cerr := consumeN(hd.tcp, feat{NoID: small}, topic, "c", int(count))
-	extra := []string{}
+	raws, cerr := consumeN(hd.tcp, feat{NoID: hd.maxBody < 4096}, topic, "c", int(count))
 	if cerr != nil {
 		// judged with what did arrive
 		liveFailures++
@@ -377,8 +476,9 @@ func httpCase(in caseIn, name string) {
 		Coq: fmt.Sprintf("(J07.CHttp %s %s %s %s %s %s %s %s %s %s %s)", lib.CoqN(uint64(kind)), lib.CoqZ(hd.maxMsg), lib.CoqZ(hd.maxBody), lib.CoqZ(cl),
 			lib.CoqBytes(body), lib.CoqN(uint64(intent)), lib.CoqBytesList(want), lib.CoqZ(int64(status)), lib.CoqN(errCode(status, msg)),
 			lib.CoqZ(count), lib.CoqBytesList(got)),
-		Input: in, Tags: append(extra, "kind=http", "http="+cls, fmt.Sprintf("http_status=%d:%s", status, msg), fmt.Sprintf("chunked=%v", chunked), fmt.Sprintf("small_limits=%v", small)),
-		Nontrivial: true, Obs: map[string]interface{}{"status": status, "message": msg, "count": count}})
+		Input: in, Tags: append(extra, "kind=http", "http="+cls, fmt.Sprintf("http_status=%d:%s", status, msg), fmt.Sprintf("chunked=%v", chunked),
+			fmt.Sprintf("small_limits=%v", hd.maxMsg == 16), "http_daemon="+hd.key),
+		Nontrivial: true, Obs: map[string]interface{}{"status": status, "message": msg, "count": count, "delivered": len(got)}})
 }
 
 // strictBatch: the harness's own reading of a binary batch: the whole input is one batch
